@@ -103,3 +103,5 @@ Qed.
 
 Lemma w_written2 : writtenb w_interp dg_id ObjTree.Sha512 (abs w_aseg w_after2 ex_mo) = true.
 Proof. vm_compute. reflexivity. Qed.
+
+Definition w_rootdir : fpath := [xs "root"].
